@@ -99,7 +99,9 @@ CHECKS = {
               "query, finalise+re-initialise}; proved by induction over arbitrary histories, without axioms: everything a compression can read "
               "after its own writes equals what it reads in a freshly initialised library, hence so does any stream and reconstruction computed "
               "from it; the configuration and the configured default bounds are unchanged by every history. The three pre-repair behaviours are "
-              "refuted statements with witness histories. The effect table is tied to the source on every run by extracted facts (which functions "
+              "refuted statements with witness histories; so is the one remaining dependence (listed finding threadsafe_leaves_bounds: the thread-safe customize entry, "
+              "modelled as step_ts outside the theorem's operations, leaves its own bounds in the configuration), which the check identifies per case by comparing with a "
+              "fresh process configured with the bounds left behind. The effect table is tied to the source on every run by extracted facts (which functions "
               "write which global, unconditional re-derivation, restores on every return) and by running random histories in the implementation: "
               "globals after every operation vs. the model, and the observed pair's stream and reconstruction vs. a fresh process."),
         note=TB_COMMON + "That the model's `view` is everything the kernels read is checked by stream equality on explored histories, not derived from the C source. Time-step globals (sz_tsc) are C17's subject.",
@@ -144,10 +146,12 @@ CHECKS = {
         technique="Coq proof (ledger invariant and balance by induction over call histories) + link-time allocation ledger compared with the model + AddressSanitizer replay of generated valid call sequences"),
     "C02": dict(
         category="proof", design_ref="DESIGN.md §4 C02",
-        text=("Proved over the reals (Coq Reals; Flocq not involved): an absolute error of log2(1+r) on log2|x| is a relative error of at most r on x; with the zero "
+        text=("Proved over the reals (Coq Reals; Flocq's generic rounding for the exact-value codec): an absolute error of log2(1+r) on log2|x| is a relative error of at most r on x; with the zero "
               "placeholder a*e and threshold b*e below the smallest log-magnitude and a-1 > b > 1, every exact zero decodes to exactly 0 and no non-zero value does, for "
               "any inner codec keeping the log-domain bound; sign restoration keeps every sign. The constants the code had (2.0001 / 1.0001) are a refuted statement "
-              "(a zero on the threshold), replayed on the implementation and repaired. The constants (3.0 / 1.5 in all six kernels), the fixed back end of the sign "
+              "(a zero on the threshold), replayed on the implementation and repaired. The exact-value codec the log kernels store their first and unpredictable elements with "
+              "is proved (Flocq rounding toward zero to p significant bits) to stay within the bound on the range it is sized for and refuted outside it; that the range and "
+              "median handed to the kernels cover the zero placeholders is therefore one of the extracted facts (defect e31086f). The constants (3.0 / 1.5 in all six kernels), the fixed back end of the sign "
               "plane on both sides, the exact fallback for unresolvable ratios, the private copy of the accelerated path and its range loop are extracted from the "
               "source on every run and are proof obligations. The implementation is judged on every run by an exact oracle on generated arrays (mixed signs, zeros, "
               "hundreds of binades, both paths, both back ends) under AddressSanitizer; denormal magnitudes are a listed finding."),
